@@ -297,6 +297,17 @@ class Interp:
                 # highest set bit is k  => lz = w-1-k
                 t = f"(ite (= ((_ extract {k} {k}) {a.s}) #b1) (_ bv{a.w - 1 - k} 32) {t})"
             return [(BV(32, t), [])]
+        if f.endswith("trailing_zeros"):
+            a = args[0]
+            t = f"(_ bv{a.w} 32)"
+            for k in range(a.w - 1, -1, -1):
+                # lowest set bit is k  => tz = k
+                t = f"(ite (= ((_ extract {k} {k}) {a.s}) #b1) (_ bv{k} 32) {t})"
+            return [(BV(32, t), [])]
+        if f.endswith("count_ones"):
+            a = args[0]
+            t = " ".join(f"((_ zero_extend 31) ((_ extract {k} {k}) {a.s}))" for k in range(a.w))
+            return [(BV(32, f"(bvadd {t})"), [])]
         if f.endswith("checked_next_power_of_two") or f.endswith("::next_power_of_two"):
             a = args[0]
             w = a.w
